@@ -682,6 +682,8 @@ package group
 //@        && len(arg_password) == len(pw) && (forall i int :: 0 <= i && i < len(pw) ==> arg_password[i] == pw[i]) && p.Hash == "sha-256"
 //@   assert at call Equal compare: same(arg_a, first(callresult("DecodeString", 1))) && same(arg_b, callresult("Key", 1))
 //@   proves pbkdf2-result: p.Type == "pbkdf2" && result1 == nil ==> result0 == callresult("Equal", 1)
+//@   -- C08: a record whose key is empty matches nothing (the key derived with length 0 is empty too: it matched every password)
+//@   proves pbkdf2-empty-key: p.Type == "pbkdf2" && p.Key != nil && second(callresult("DecodeString", 1)) == nil && len(first(callresult("DecodeString", 1))) == 0 ==> !result0
 //@   -- C08: a bcrypt record is compared with this password
 //@   assert at call CompareHashAndPassword compare: p.Key != nil && len(arg_password) == len(pw) && (forall i int :: 0 <= i && i < len(pw) ==> arg_password[i] == pw[i])
 //@        && len(arg_hashedPassword) == len(*p.Key) && (forall i int :: 0 <= i && i < len(*p.Key) ==> arg_hashedPassword[i] == (*p.Key)[i])
